@@ -162,6 +162,7 @@ static inline void vf_map_%(G)s_insert(struct vf_map_%(G)s* s, %(A)s k, %(B)s v)
   struct vf_pair_%(G)s* p = vf_map_%(G)s_find(s, k);
   if (p == s->e + s->n) { __CPROVER_assume(s->n < s->cap); p->first = k; p->second = v; s->n++; }
 }
+static inline void vf_map_%(G)s_insert_pair(struct vf_map_%(G)s* s, struct vf_pair_%(G)s v) { vf_map_%(G)s_insert(s, v.first, v.second); }
 static inline void vf_map_%(G)s_set(struct vf_map_%(G)s* s, %(A)s k, %(B)s v) { *vf_map_%(G)s_index(s, k) = v; }
 static inline size_t vf_map_%(G)s_erase(struct vf_map_%(G)s* s, %(A)s k)
 {
